@@ -166,7 +166,7 @@ _aug("C18", " + TLC: TxtFormat, the text format as a specification (MC_TxtFormat
 for _p in ("C01", "C02", "C21", "C23", "C24", "C26"):
     _aug(_p, " + RP: every program MC_Asm checks (<= 3/4 statements over 17 templates) is assembled by the real assembler and validated by TLC (MC_AsmRP)",
          " RP: MC_AsmRP prints every program it checks (5 220; thorough 88 741); the harness renders and assembles each with the real parser and assembler and TV_Asm validates the record.")
-for _p in ("C20", "C22"):
+for _p in ("C20", "C22", "C17", "C18", "C21", "C26"):
     _aug(_p, " + RP: every selection MC_Link checks (pairs, thorough triples, of 9 files x debug) assembled and linked by the real crate in every order and validated by TLC (MC_LinkRP)",
          " RP: MC_LinkRP prints each selection; the harness assembles the files and links the set in every order and bracketing; TV_Asm validates every step.")
 _aug("C03", " + RP: each of the 15 360 renderings goes through the real parser, which must read what Grammar!ParseProgram reads (lc3v replay parse)",
